@@ -72,6 +72,8 @@ def gen_input(rng, states, probes, maxlen=24):
     """bytes from a random walk through the automaton (mostly live transitions)"""
     out = []
     s = 0
+    if rng.random() < 0.06:
+        out += [0xEF, 0xBB, 0xBF]          # a leading byte order mark is input like any other
     n = rng.randint(0, maxlen)
     for _ in range(n):
         acc, ign, dot, cls = states[s] if 0 <= s < len(states) else (0, 0, -2, [])
